@@ -22,11 +22,11 @@ def _eq_case(seed, i):
     t = s if same else ''.join(rng.choice('01') for _ in range(rng.choice([n, n, max(0, n - 8), n + 8])))
     whole = len(t) % 8 == 0
     tb = int(t, 2).to_bytes(len(t) // 8, 'big') if (whole and t) else b''
-    kinds = ['bin str', 'list of bools', 'tuple of ints', 'generator', 'bitarray big', 'bitarray little', 'int', 'float', 'None', 'object']
+    kinds = ['bin str', 'list of bools', 'tuple of ints', 'generator', 'bitarray big', 'bitarray little', 'int', 'huge int', 'float', 'None', 'object']
     if whole:
         kinds += ['bytes', 'bytearray', 'memoryview', 'memoryview strided', 'memoryview reversed', 'array.array', 'BytesIO', 'hex str']
     kind = rng.choice(kinds)
-    promotable = kind not in ('int', 'float', 'None', 'object')
+    promotable = kind not in ('int', 'huge int', 'float', 'None', 'object')
 
     def make():
         # a fresh operand of the chosen kind denoting t
@@ -60,7 +60,7 @@ def _eq_case(seed, i):
         elif kind == 'BytesIO':
             rhs = io.BytesIO(tb)
         else:
-            rhs = {'int': 5, 'float': 1.5, 'None': None, 'object': object()}[kind]
+            rhs = {'int': 5, 'huge int': rng.choice([10 ** 5000, -(10 ** 5000), 1 << 70]), 'float': 1.5, 'None': None, 'object': object()}[kind]
         return rhs
     rhs = make()
     history = ''
